@@ -40,13 +40,13 @@ def _set(xs):
 
 
 def cfg_text(NI, NR, NC, NA, RichA, kinds, temps, VC, VSP, VSN, MaxCol, MaxRec, MaxLen=0, hist=False,
-             ties=False, inv=INVS, view="View", extra=""):
+             ties=False, inv=INVS, view="View", extra="", wit=()):
     return ("CONSTANTS NI = %d NR = %d NC = %d NA = %d RichA = %d\n"
             " KindSet = %s TempSet = %s VC = %s VSP = %s VSN = %s\n"
-            " MaxCol = %d MaxRec = %d MaxLen = %d Hist = %s Ties = %s Dev = {}\n"
+            " MaxCol = %d MaxRec = %d MaxLen = %d Hist = %s Ties = %s Dev = {} WitSet = %s\n"
             "INIT Init\nNEXT Next\nVIEW %s\nINVARIANTS %s\n%s\n" % (
                 NI, NR, NC, NA, RichA, _set(kinds), _set(temps), _set(VC), _set(VSP), _set(VSN),
-                MaxCol, MaxRec, MaxLen, "TRUE" if hist else "FALSE", "TRUE" if ties else "FALSE", view, inv, extra))
+                MaxCol, MaxRec, MaxLen, "TRUE" if hist else "FALSE", "TRUE" if ties else "FALSE", _set(wit), view, inv, extra))
 
 
 def _cfg(ctx, name, **kw):
@@ -58,21 +58,24 @@ def _cfg(ctx, name, **kw):
 
 DC = ["d", "c"]
 V = dict(VC=[0, 1, 3], VSP=[0, 2], VSN=[1])
+V2 = dict(VC=[1, 3], VSP=[2], VSN=[1])
 MC_QUICK = {
-    "conv-2readers": dict(NI=1, NR=2, NC=1, NA=2, RichA=1, kinds=OBS3, temps=DC, MaxCol=3, MaxRec=0, **V),
+    "conv-2readers": dict(NI=1, NR=2, NC=1, NA=2, RichA=1, kinds=OBS3, temps=DC, MaxCol=3, MaxRec=0, **V2),
     "conv-1reader-fastpath": dict(NI=1, NR=1, NC=1, NA=2, RichA=1, kinds=OBS3, temps=DC, MaxCol=4, MaxRec=0, **V),
-    "conv-3readers": dict(NI=1, NR=3, NC=1, NA=1, RichA=1, kinds=["ocounter", "ogauge"], temps=DC, MaxCol=3, MaxRec=0, **V),
-    "registry-3cb-2instr": dict(NI=2, NR=1, NC=3, NA=2, RichA=0, kinds=["ocounter"], temps=DC, VC=[1], VSP=[1], VSN=[],
+    "conv-3readers": dict(NI=1, NR=3, NC=1, NA=1, RichA=1, kinds=["ocounter", "ogauge"], temps=DC, MaxCol=3, MaxRec=0, **V2),
+    "registry-3cb-2instr": dict(NI=2, NR=1, NC=3, NA=1, RichA=0, kinds=["ocounter"], temps=DC, VC=[1], VSP=[1], VSN=[],
                                 MaxCol=2, MaxRec=0),
-    "sync-gauge": dict(NI=1, NR=2, NC=0, NA=2, RichA=1, kinds=["sgauge"], temps=DC, VC=[], VSP=[0, 2], VSN=[1],
+    "sync-gauge": dict(NI=1, NR=2, NC=0, NA=2, RichA=1, kinds=["sgauge"], temps=DC, VC=[], VSP=[2], VSN=[1],
                        MaxCol=3, MaxRec=3),
 }
 MC_THOROUGH = {
     "conv-2readers": dict(NI=1, NR=2, NC=1, NA=2, RichA=1, kinds=OBS3, temps=DC, MaxCol=4, MaxRec=0, **V),
     "conv-1reader-fastpath": dict(NI=1, NR=1, NC=1, NA=2, RichA=2, kinds=OBS3, temps=DC, MaxCol=4, MaxRec=0, **V),
     "conv-3readers": dict(NI=1, NR=3, NC=1, NA=1, RichA=1, kinds=OBS3, temps=DC, MaxCol=4, MaxRec=0, **V),
-    "registry-3cb-2instr": dict(NI=2, NR=2, NC=3, NA=2, RichA=0, kinds=["ocounter", "ogauge"], temps=DC, VC=[1], VSP=[1],
+    "registry-3cb-2instr": dict(NI=2, NR=2, NC=3, NA=2, RichA=0, kinds=["ocounter"], temps=DC, VC=[1], VSP=[1],
                                 VSN=[], MaxCol=2, MaxRec=0),
+    "registry-2cb-gauge": dict(NI=2, NR=1, NC=2, NA=2, RichA=0, kinds=["ocounter", "ogauge"], temps=DC, VC=[1], VSP=[1],
+                               VSN=[], MaxCol=3, MaxRec=0),
     "sync-gauge": dict(NI=1, NR=3, NC=0, NA=2, RichA=1, kinds=["sgauge"], temps=DC, VC=[], VSP=[0, 2], VSN=[1],
                        MaxCol=3, MaxRec=4),
     "mixed-obs-sync": dict(NI=2, NR=2, NC=1, NA=1, RichA=1, kinds=["ocounter", "sgauge"], temps=DC, VC=[1, 3], VSP=[0, 2],
@@ -89,18 +92,16 @@ VAC_NAMES = ["cumulative reader, later delivery of a total reported now", "delta
              "synchronous gauge recorded since last collection", "collection while a live callback is unregistered",
              "collection while a destroyed instrument's callback exists", "attribute set not reported in this collection"]
 
-# witness-directed behaviours: (invariant, config)
-_W_SUM = dict(NI=1, NR=2, NC=1, NA=1, RichA=1, kinds=["oupdown"], temps=DC, VC=[], VSP=[0, 2], VSN=[1], MaxCol=4, MaxRec=0)
-_W_REG = dict(NI=1, NR=1, NC=2, NA=2, RichA=0, kinds=["ocounter"], temps=["d"], VC=[1], VSP=[1], VSN=[], MaxCol=3, MaxRec=0)
-_W_REG2 = dict(NI=2, NR=2, NC=2, NA=1, RichA=1, kinds=["ocounter", "ogauge"], temps=DC, VC=[1, 3], VSP=[0, 2], VSN=[], MaxCol=3,
-               MaxRec=0)
+# witness-directed behaviours: one TLC run per entry (spec: WitProbe / WitDone), (name, config, conditions)
+_W_SUM = dict(NI=1, NR=2, NC=1, NA=1, RichA=1, kinds=["oupdown", "ogauge"], temps=DC, VC=[], VSP=[0, 2], VSN=[1], MaxCol=4, MaxRec=0)
+_W_REG = dict(NI=2, NR=1, NC=2, NA=2, RichA=0, kinds=["ocounter"], temps=["d"], VC=[1], VSP=[1], VSN=[], MaxCol=3, MaxRec=0)
 _W_GAU = dict(NI=1, NR=2, NC=1, NA=1, RichA=1, kinds=["ogauge"], temps=DC, VC=[], VSP=[0, 2], VSN=[1], MaxCol=3, MaxRec=0)
 _W_SG = dict(NI=1, NR=2, NC=0, NA=1, RichA=1, kinds=["sgauge"], temps=DC, VC=[], VSP=[0, 2], VSN=[1], MaxCol=3, MaxRec=3)
 WITNESSES = [
-    ("WitNegDelta", _W_SUM), ("WitZeroDelta", _W_SUM), ("WitReappear", _W_SUM), ("WitInterleaved", _W_SUM),
-    ("WitFirstAfterOther", _W_SUM), ("WitDeltaFlush", _W_SUM), ("WitReaddInvoked", _W_SUM),
-    ("WitCollectAfterDestroy", _W_REG2), ("WitCollectAfterRem", _W_REG), ("WitTwoCb", _W_REG), ("WitFastPath", _W_REG),
-    ("WitRemNoop", _W_REG), ("WitGaugeStaleCum", _W_GAU), ("WitSgaugeStale", _W_SG), ("WitSgOverwrite", _W_SG),
+    ("sums+gauge", _W_SUM, ["neg_delta", "zero_delta", "reappear", "interleaved", "first_after_other", "delta_flush_unreported",
+                            "readd_invoked", "gauge_stale_cum"]),
+    ("registry", _W_REG, ["collect_after_rem", "two_cb_one_instr", "fastpath", "rem_noop", "collect_after_destroy"]),
+    ("sync-gauge", _W_SG, ["sgauge_stale", "sg_overwrite"]),
 ]
 
 
@@ -108,58 +109,57 @@ WITNESSES = [
 def model_check(ctx):
     thorough = ctx.tier == "thorough"
     cfgs = MC_THOROUGH if thorough else MC_QUICK
+    jobs = []
+    for name, kw in cfgs.items():
+        jobs.append(("mc", name, _cfg(ctx, "mc-" + name, **kw), dict(workers=4, timeout_s=1500 if thorough else 150, xmx="6g")))
+    for name, kw in VAC.items():
+        # vacuity: every action taken, every antecedent reachable (one worker: TLCSet registers)
+        jobs.append(("vac", name, _cfg(ctx, name, inv=INVS + " VacProbe", extra="POSTCONDITION VacReport", **kw),
+                     dict(workers=1, timeout_s=300, coverage=True)))
+    if thorough:
+        kw = dict(_W_GAU)
+        kw["temps"] = ["c"]
+        jobs.append(("ties", "ties", _cfg(ctx, "ties", ties=True, inv="GaugeIsLatest", **kw), dict(workers=1, timeout_s=120)))
 
-    def one(item):
-        name, kw = item
-        c = _cfg(ctx, "mc-" + name, **kw)
-        return name, tlc.tlc("MetricsAsync", c, rundir=ctx.rundir.path, workers=4, timeout_s=1500 if thorough else 150,
-                             xmx="6g", tag="mc-" + name)
+    def one(job):
+        kind, name, c, opts = job
+        return kind, name, tlc.tlc("MetricsAsync", c, rundir=ctx.rundir.path, tag=kind + "-" + name, **opts)
 
-    with cf.ThreadPoolExecutor(max_workers=3) as ex:
-        for name, r in ex.map(one, cfgs.items()):
-            ctx.add_tlc("MetricsAsync " + name, r)
-            if r.status == "timeout":
-                log("MC config %s timed out (bounded, not exhaustive)" % name)
-                continue
-            if r.status == "invariant":
-                # the MODEL of the SDK's design breaks the property.  An alarm still has to come from the
-                # real code (replay / trace validation below); record it.
-                ctx.extra.setdefault("model_violations", []).append({"cfg": name, "invariant": r.violated})
-                continue
-            tlc.must_ok(r, "MetricsAsync model checking (%s)" % name)
-    # vacuity: every action taken, every antecedent reachable (one worker: TLCSet registers)
     seen = [0] * len(VAC_NAMES)
     cov = {}
-
-    def vac(item):
-        name, kw = item
-        c = _cfg(ctx, name, inv=INVS + " VacProbe", extra="POSTCONDITION VacReport", **kw)
-        return name, tlc.tlc("MetricsAsync", c, rundir=ctx.rundir.path, workers=1, timeout_s=300, coverage=True, tag=name)
-
-    with cf.ThreadPoolExecutor(max_workers=2) as ex:
-        for name, r in ex.map(vac, VAC.items()):
-            ctx.add_tlc("MetricsAsync " + name + " (coverage + vacuity probes)", r)
-            tlc.must_ok(r, "vacuity run " + name)
-            v = r.printed("VAC")
-            if not v:
-                raise Broken("vacuity run %s printed no VAC line" % name)
-            seen = [max(a, b) for a, b in zip(seen, v[-1])]
-            for a, (t, g) in r.coverage.items():
-                cov[a] = cov.get(a, 0) + t
+    with cf.ThreadPoolExecutor(max_workers=3) as ex:
+        for kind, name, r in ex.map(one, jobs):
+            if kind == "mc":
+                ctx.add_tlc("MetricsAsync " + name, r)
+                if r.status == "timeout":
+                    log("MC config %s timed out (bounded, not exhaustive)" % name)
+                elif r.status == "invariant":
+                    # the MODEL of the SDK's design breaks the property.  An alarm still has to come from the
+                    # real code (replay / trace validation below); record it.
+                    ctx.extra.setdefault("model_violations", []).append({"cfg": name, "invariant": r.violated})
+                else:
+                    tlc.must_ok(r, "MetricsAsync model checking (%s)" % name)
+            elif kind == "vac":
+                ctx.add_tlc("MetricsAsync " + name + " (coverage + vacuity probes)", r)
+                tlc.must_ok(r, "vacuity run " + name)
+                v = r.printed("VAC")
+                if not v:
+                    raise Broken("vacuity run %s printed no VAC line" % name)
+                seen = [max(a, b) for a, b in zip(seen, v[-1])]
+                for a, (t, g) in r.coverage.items():
+                    cov[a] = cov.get(a, 0) + t
+            else:
+                # the strict-clock assumption is necessary: with ties the DESIGN breaks GaugeIsLatest (model only)
+                ctx.extra["model_with_clock_ties"] = (
+                    "violates %s after %d steps (model only; not reproducible on the real code without a clock hook)"
+                    % (r.violated, r.depth) if r.status == "invariant" else "status " + r.status)
     for a in ACTIONS:
         if cov.get(a, 0) == 0:
             raise Broken("vacuity: action %s never taken in the coverage runs (%s)" % (a, cov))
-    for k, s in enumerate(seen):
-        if not s:
+    for k, sn in enumerate(seen):
+        if not sn:
             raise Broken("vacuity: antecedent never true in the model: " + VAC_NAMES[k])
     ctx.extra["vacuity_antecedents_seen"] = dict(zip(VAC_NAMES, seen))
-    # the strict-clock assumption is necessary: with ties allowed the DESIGN breaks GaugeIsLatest (model only)
-    kw = dict(_W_GAU)
-    kw["temps"] = ["c"]
-    c = _cfg(ctx, "ties", ties=True, inv="GaugeIsLatest", **kw)
-    r = tlc.tlc("MetricsAsync", c, rundir=ctx.rundir.path, workers=2, timeout_s=120, tag="ties")
-    ctx.extra["model_with_clock_ties"] = ("violates %s (model only; not reproducible on the real code without a clock hook)"
-                                          % r.violated if r.status == "invariant" else "status " + r.status)
 
 
 # --------------------------------------------------------------------------------------------------
@@ -179,7 +179,34 @@ def _key(steps):
 
 
 def generate(ctx, have_sg):
+    """Behaviours printed by TLC: (a) one shortest behaviour per rare condition, (b) ALL behaviours of a tiny
+    configuration up to a small length, (c) random walks over larger domains.  All TLC runs share one pool."""
     thorough = ctx.tier == "thorough"
+    jobs = []
+    for name, kw, names in WITNESSES:
+        c = _cfg(ctx, "w-" + name, hist=True, inv="WitProbe WitDone", wit=names, **kw)
+        # one worker: BFS order is deterministic, i.e. always the same shortest behaviours
+        jobs.append(("wit", name, names, c, dict(workers=1, timeout_s=200)))
+    c = _cfg(ctx, "bfs", hist=True, inv="EmitLast", view="ViewH", extra="CONSTRAINT HistBound\nACTION_CONSTRAINT GenShape",
+             NI=1, NR=2, NC=1, NA=1, RichA=1, kinds=["ocounter", "ogauge"], temps=DC, VC=[1, 3], VSP=[0, 2], VSN=[],
+             MaxCol=3, MaxRec=0, MaxLen=7 if thorough else 6)
+    jobs.append(("bfs", "bfs", None, c, dict(workers=4, timeout_s=900)))
+    sims = [("sim-obs", dict(NI=3, NR=3, NC=3, NA=3, RichA=3, kinds=OBS3, temps=DC, MaxCol=8, MaxRec=0, **V), 11),
+            ("sim-obs-1reader", dict(NI=2, NR=1, NC=3, NA=3, RichA=3, kinds=OBS3, temps=DC, MaxCol=8, MaxRec=0, **V), 12),
+            ("sim-obs-4cb", dict(NI=2, NR=2, NC=4, NA=4, RichA=2, kinds=OBS3, temps=DC, MaxCol=10, MaxRec=0, **V), 13)]
+    if have_sg:
+        sims.append(("sim-sgauge", dict(NI=3, NR=3, NC=2, NA=3, RichA=3, kinds=OBS3 + ["sgauge"], temps=DC, MaxCol=8, MaxRec=12,
+                                        **V), 14))
+    num = 250 if thorough else 40
+    for name, kw, off in sims:
+        c = _cfg(ctx, name, hist=True, inv="EmitAll", extra="ACTION_CONSTRAINT GenShape", **kw)
+        jobs.append(("sim", name, None, c, dict(workers=4, timeout_s=900, simulate={"num": num, "depth": 600},
+                                                seed=ctx.seed * 101 + off)))
+
+    def one(job):
+        kind, name, names, c, opts = job
+        return kind, name, names, tlc.tlc("MetricsAsync", c, rundir=ctx.rundir.path, tag=kind + "-" + name, **opts)
+
     behs = []
     seen = set()
 
@@ -190,61 +217,33 @@ def generate(ctx, have_sg):
         seen.add(k)
         behs.append({"id": len(behs), "src": src, "steps": steps})
 
-    # (a) one shortest behaviour per rare condition
-    def wit(item):
-        w, kw = item
-        c = _cfg(ctx, "w-" + w, hist=True, inv=w, **kw)
-        # one worker: BFS is then deterministic, i.e. always the same shortest behaviour
-        return w, tlc.tlc("MetricsAsync", c, rundir=ctx.rundir.path, workers=1, timeout_s=200, tag="w-" + w)
-
     wl = {}
-    with cf.ThreadPoolExecutor(max_workers=5) as ex:
-        for w, r in ex.map(wit, WITNESSES):
-            ctx.add_tlc("witness " + w, r)
-            b = r.printed("BEH")
-            if r.status != "invariant" or not b:
-                raise Broken("witness %s not reachable in the model (vacuity): %s" % (w, r.status))
-            wl[w] = len(b[0]) - 1
-            if w.startswith("WitSg") and not have_sg:
+    with cf.ThreadPoolExecutor(max_workers=4) as ex:
+        for kind, name, names, r in ex.map(one, jobs):        # results in submission order: ids are deterministic
+            if kind == "wit":
+                ctx.add_tlc("witnesses " + name, r)
+                found = {b["wit"]: b["hist"] for b in r.printed("BEH")}
+                if r.status != "invariant" or r.violated != "WitDone" or set(found) != set(names):
+                    raise Broken("witnesses %s not all reachable in the model (vacuity): status %s, found %s" % (
+                        names, r.status, sorted(found)))
+                for w in names:
+                    wl[w] = len(found[w]) - 1
+                    if _has_sg(found[w]) and not have_sg:
+                        continue
+                    add(found[w], "witness:" + w)
                 continue
-            add(b[0], w)
-    ctx.extra["witness_lengths"] = wl
-    # (b) ALL behaviours of a tiny configuration up to a small length
-    c = _cfg(ctx, "bfs", hist=True, inv="EmitLast", view="ViewH", extra="CONSTRAINT HistBound\nACTION_CONSTRAINT GenShape",
-             NI=1, NR=2, NC=1, NA=1, RichA=1, kinds=["ocounter", "ogauge"], temps=DC, VC=[1, 3], VSP=[0, 2], VSN=[],
-             MaxCol=3, MaxRec=0, MaxLen=7 if thorough else 6)
-    r = tlc.tlc("MetricsAsync", c, rundir=ctx.rundir.path, workers=4, timeout_s=600, tag="bfs")
-    tlc.must_ok(r, "all-behaviours export")
-    ctx.add_tlc("all behaviours, tiny configuration (export)", r)
-    n0 = len(behs)
-    for b in sorted(r.printed("BEH"), key=_key):      # TLC's print order depends on worker scheduling
-        add(b, "bfs")
-    ctx.extra["behaviours_bfs_all"] = len(behs) - n0
-    # (c) random walks over larger domains
-    sims = [("sim-obs", dict(NI=3, NR=3, NC=3, NA=3, RichA=3, kinds=OBS3, temps=DC, MaxCol=8, MaxRec=0, **V), 11),
-            ("sim-obs-1reader", dict(NI=2, NR=1, NC=3, NA=3, RichA=3, kinds=OBS3, temps=DC, MaxCol=8, MaxRec=0, **V), 12),
-            ("sim-obs-4cb", dict(NI=2, NR=2, NC=4, NA=4, RichA=2, kinds=OBS3, temps=DC, MaxCol=10, MaxRec=0, **V), 13)]
-    if have_sg:
-        sims.append(("sim-sgauge", dict(NI=3, NR=3, NC=2, NA=3, RichA=3, kinds=OBS3 + ["sgauge"], temps=DC, MaxCol=8, MaxRec=12,
-                                        **V), 14))
-    num = 250 if thorough else 40
-
-    def sim(item):
-        name, kw, off = item
-        c = _cfg(ctx, name, hist=True, inv="EmitAll", extra="ACTION_CONSTRAINT GenShape", **kw)
-        return name, tlc.tlc("MetricsAsync", c, rundir=ctx.rundir.path, workers=4, timeout_s=600,
-                             simulate={"num": num, "depth": 600}, seed=ctx.seed * 101 + off, tag=name)
-
-    with cf.ThreadPoolExecutor(max_workers=3) as ex:
-        for name, r in ex.map(sim, sims):
-            if r.status != "ok":
+            if kind == "bfs":
+                tlc.must_ok(r, "all-behaviours export")
+                ctx.add_tlc("all behaviours, tiny configuration (export)", r)
+            elif r.status != "ok":
                 raise Broken("simulate %s failed: %s\n%s" % (name, r.status, r.out[-1500:]))
             n0 = len(behs)
-            for b in sorted(r.printed("BEH"), key=_key):
+            for b in sorted(r.printed("BEH"), key=_key):      # TLC's print order depends on worker scheduling
                 add(b, name)
             ctx.extra["behaviours_" + name] = len(behs) - n0
             if len(behs) == n0:
-                raise Broken("simulate %s printed no behaviour" % name)
+                raise Broken("%s printed no behaviour" % name)
+    ctx.extra["witness_lengths"] = wl
     return behs
 
 
@@ -286,6 +285,8 @@ def check_behaviour(ctx, b, res, stats):
                     return ("instrument %d (%s), reader %d (%s): a point for attribute set %s that was never reported: %s"
                             % (i + 1, kinds[i], r, temps[r - 1], a, p), k)
                 stats["points"] += 1
+                kt = "%s/%s" % (kinds[i], temps[r - 1])
+                stats["points_by_kind_and_temporality"][kt] = stats["points_by_kind_and_temporality"].get(kt, 0) + 1
                 if p["v"] != want[a]["v"]:
                     return ("instrument %d (%s), reader %d (%s), attribute set %d: given %s, the spec demands %d"
                             % (i + 1, kinds[i], r, temps[r - 1], a, p.get("raw", p["v"]), want[a]["v"]), k)
@@ -308,7 +309,7 @@ def check_behaviour(ctx, b, res, stats):
 
 def replay_behaviours(ctx, exes, behs):
     stats = {"ops": {}, "invocations": 0, "points": 0, "optional_present": 0, "optional_absent": 0, "truncated": 0,
-             "complete": 0, "clock_discarded": 0}
+             "complete": 0, "clock_discarded": 0, "points_by_kind_and_temporality": {}}
     groups = {1: [b for b in behs if not _has_sg(b["steps"])], 2: [b for b in behs if _has_sg(b["steps"])]}
     # a share of the observable-only behaviours also goes through the ABI v2 build
     if exes.get(2):
@@ -370,7 +371,7 @@ def replay_behaviours(ctx, exes, behs):
 def record(ctx, exes):
     thorough = ctx.tier == "thorough"
     runs = []
-    per = 250 if thorough else 60
+    per = 250 if thorough else 40
     nproc = 8 if thorough else 4
     for abi, exe in exes.items():
         if not exe:
@@ -404,7 +405,7 @@ def record(ctx, exes):
 
 def validate(ctx, lines):
     execs = trace.split_executions(lines)
-    res = trace.validate(ctx, "MetricsAsyncTrace", "MetricsAsyncTrace.cfg", lines, parallel=6, chunk=60, tag="c17")
+    res = trace.validate(ctx, "MetricsAsyncTrace", "MetricsAsyncTrace.cfg", lines, parallel=8, chunk=80, tag="c17")
     ctx.extra["executions_validated"] = res["executions"]
     ctx.extra["events_validated"] = res["events"]
     for rj in res["rejected"]:
@@ -482,36 +483,67 @@ def run(ctx):
         log("model-level violations without a real-execution witness:", ctx.extra["model_violations"])
 
 
+def _to_log(b, res):
+    """The replay of a behaviour on the real API, written as the event log the trace spec reads."""
+    D = lambda o: json.dumps(o, separators=(",", ":"))
+    steps = b["steps"]
+    c0 = steps[0]
+    lines = [D({"e": "Cfg", "kinds": c0["kinds"], "temps": c0["temps"], "cbi": c0["cbi"], "na": c0["na"]})]
+    for s, o in zip(steps[1:], res["steps"][1:]):
+        op = s["op"]
+        if op == "Add" or op == "Rem":
+            lines.append(D({"e": op, "c": s["c"]}))
+        elif op == "Destroy":
+            lines.append(D({"e": "Destroy", "i": s["i"]}))
+        elif op == "Rec":
+            lines.append(D({"e": "Rec", "i": s["i"], "a": s["a"], "v": s["v"]}))
+        else:
+            lines.append(D({"e": "Begin", "r": s["r"]}))
+            for c, n in enumerate(o["inv"]):
+                for j in range(n):
+                    lines.append(D({"e": "Cb", "c": c + 1, "rep": [[p["a"], p["v"]] for p in s["reps"][c]] if j == 0 else []}))
+            e = {"e": "End", "r": s["r"], "pts": [[[p["a"], p["v"]] for p in pl] for pl in o["pts"]]}
+            if o.get("notes") or o.get("stray"):
+                e["notes"] = o.get("notes") or ["stray callback invocation"]
+            lines.append(D(e))
+    return lines
+
+
 def replay(ctx, path):
+    """Re-run the stored case.  A behaviour is stepped through the real API again; the decision is taken
+    twice: against the expectation TLC printed with the behaviour, and by TLC itself on the event log of
+    the re-run (MetricsAsyncTrace).  A stored event log is re-validated as it is."""
     rep = json.load(open(path))["replay"]
-    exes = _build(ctx)
     if rep.get("kind") == "behaviour" and rep.get("behaviour"):
+        exes = _build(ctx)
         b = rep["behaviour"]
-        saved = ctx.seed
-        ctx.seed = rep.get("seed", ctx.seed)
-        only = {rep["abi"]: exes.get(rep["abi"])}
-        if rep["abi"] == 2:
-            b = dict(b)
-            b["steps"] = list(b["steps"])
-        # route to the recorded ABI build only
+        exe = exes.get(rep["abi"])
+        if not exe:
+            raise Broken("the ABI v%s harness is not available" % rep["abi"])
         stats = {"ops": {}, "invocations": 0, "points": 0, "optional_present": 0, "optional_absent": 0, "truncated": 0,
-                 "complete": 0, "clock_discarded": 0}
+                 "complete": 0, "clock_discarded": 0, "points_by_kind_and_temporality": {}}
         p = ctx.rundir.file("replay.ndjson")
         with open(p, "w") as f:
             f.write(json.dumps({"id": b["id"], "steps": b["steps"]}) + "\n")
-        hr = hrun.run_harness(only[rep["abi"]], ["replay", p, ctx.seed], timeout=300)
-        if hr.crashed or hr.rc != 0:
-            ctx.violation("the real code crashed again (rc=%s): %s" % (hr.rc, hr.err[-1500:]), rep)
-        else:
-            res = hr.json()[0]
-            ctx.traces += 1
-            bad = check_behaviour(ctx, b, res, stats)
-            if bad:
-                ctx.violation("replayed behaviour fails again at step %d: %s" % (bad[1], bad[0]), rep)
-        ctx.seed = saved
+        hr = hrun.run_harness(exe, ["replay", p, rep.get("seed", ctx.seed)], timeout=300)
         ctx.sample({"kind": "replayed violation behaviour", "steps": b["steps"][:8]})
-        ctx.states = max(ctx.states, 1)
-        ctx.transitions = max(ctx.transitions, 1)
+        if hr.crashed or hr.rc != 0 or not hr.json():
+            ctx.violation("the real code crashed again (rc=%s): %s" % (hr.rc, hr.err[-1500:]), rep)
+            ctx.traces += 1
+            return
+        res = hr.json()[0]
+        if not res["clock_ok"]:
+            raise Broken("system_clock went backwards during the replay; run it again")
+        bad = check_behaviour(ctx, b, res, stats)
+        tv = trace.validate(ctx, "MetricsAsyncTrace", "MetricsAsyncTrace.cfg", _to_log(b, res), parallel=1, tag="replay")
+        ctx.traces = 1
+        if bad and not tv["rejected"] and stats["truncated"] == 0:
+            # the stored expectation and the spec disagree: the file was edited, or the check is broken
+            log("note: the expectation stored with the behaviour fails but the trace spec accepts the re-run")
+        if bad:
+            ctx.violation("replayed behaviour fails again at step %d: %s" % (bad[1], bad[0]), rep)
+        elif tv["rejected"]:
+            ctx.violation("MetricsAsyncTrace rejects the re-run of the behaviour at event %d" % tv["rejected"][0]["at"], rep)
     elif rep.get("kind") == "trace":
         lines = [json.dumps(e, separators=(",", ":")) for e in rep["events"]]
         res = trace.validate(ctx, "MetricsAsyncTrace", "MetricsAsyncTrace.cfg", lines, parallel=1, tag="replay")
